@@ -3,8 +3,8 @@ from harness._compute import sym_correspondence
 from harness import symobj
 
 PROPERTY = "C04"
-LEAN_TARGETS = ["VectorModel.Props.C04", "VectorModel.Refine.Planar", "VectorModel.Refine.SpatialAcc", "VectorModel.Refine.LorentzAcc"]
-THEOREM_FILES = ["VectorModel/Props/C04.lean"]
+LEAN_TARGETS = ["VectorModel.Props.C04", "VectorModel.Refine.Planar", "VectorModel.Refine.SpatialAcc", "VectorModel.Refine.LorentzAcc", "VectorModel.Props.MethodConv"]
+THEOREM_FILES = ["VectorModel/Props/C04.lean", "VectorModel/Props/MethodConv.lean"]
 NOT_COVERED = ["round trip to_S(to_T(v)) = v up to rounding: the real-number round-trip lemmas are the accessor refinements of "
                "Refine/SpatialAcc.lean and Refine/LorentzAcc.lean (counted under C01); float64 rounding is not modelled",
                "NumPy / Awkward internals (structured dtypes, ak.zip): the dimension-change lattice compares them with the object backend on float64/int64/float32 columns"]
